@@ -5,7 +5,7 @@ CONSTANTS
   N = 3
   MaxTok = 1
   MaxIdle = 1
-  Z = 2
+  Z = 1
   StateSet = {"ACTIVE", "JOINING"}
   HbSet = {"edge"}
   RFMax = 2
